@@ -306,7 +306,7 @@ func callersInPkg(fns []*ssa.Function, f *ssa.Function) []*ssa.Function {
 }
 
 func init() {
-	register("S5", "the step limit is absolute: Thread.maxSteps is assigned only the caller's limit (or the MaxUint64 default), never a value derived from the current step count", 1, ruleS5)
+	register("S5", "the step limit is the host's: Thread.maxSteps is assigned only a parameter of the storing function (the caller's limit) or the default under a maxSteps == 0 guard, never a value derived from the current step count and never by the interpreter on its own", 1, ruleS5)
 	register("A5", "*args is a private copy: in setArgs every tuple stored into the callee's locals is allocated in setArgs; it is never a (sub)slice of the args parameter, which may be a window onto the caller's operand stack", 1, ruleA5)
 	register("O8", "nesting counters are balanced: each increment of a resolver nesting counter (loops, ifstmts) is matched by a decrement in the same function, and a counter that a function resets is restored from a saved copy before the function returns", 3, ruleO8)
 	register("E7", "no representation equality on ints: values of type starlark.Int are never compared with Go's == / != outside the Int implementation (for big ints that compares pointers, not numbers)", 1, ruleE7)
@@ -336,10 +336,38 @@ func ruleS5(c *Ctx) {
 					}
 				}
 			}
-			if bad {
+			// who sets the limit: the host (the value is a parameter of the storing function), or the
+			// one-time default for a thread whose limit is still unset (guarded by maxSteps == 0)
+			fromParam := false
+			for y := range backSlice(st.Val) {
+				if _, ok := y.(*ssa.Parameter); ok && y.Type().Underlying() == st.Val.Type().Underlying() {
+					fromParam = true
+				}
+			}
+			unsetGuard := false
+			for _, pc := range pathConds(st.Block()) {
+				cond, neg := stripNot(pc.If.Cond)
+				if bo, ok := cond.(*ssa.BinOp); ok && (bo.Op == token.EQL || bo.Op == token.NEQ) && derivesFromField(bo.X, "starlark.Thread", "maxSteps") {
+					if k, isK := constInt(bo.Y); isK && k == 0 {
+						isZero := pc.Branch != neg
+						if bo.Op == token.NEQ {
+							isZero = !isZero
+						}
+						if isZero {
+							unsetGuard = true
+						}
+					}
+				}
+			}
+			switch {
+			case bad:
 				c.viol(key, c.P.Pos(st.Pos()), "the limit is computed from the steps already executed: a thread that has run K steps and is given limit N may execute up to K+N-1 steps, i.e. N or more")
-			} else {
-				c.ok(key, c.P.Pos(st.Pos()), "independent of Thread.Steps")
+			case fromParam:
+				c.ok(key, c.P.Pos(st.Pos()), "the caller's limit, independent of Thread.Steps")
+			case unsetGuard:
+				c.ok(key, c.P.Pos(st.Pos()), "default for a thread whose limit is still unset (maxSteps == 0)")
+			default:
+				c.viol(key, c.P.Pos(st.Pos()), "the interpreter changes the step limit by itself (not the host's value, not the default of an unset limit): once this store has run the limit the host configured no longer applies")
 			}
 		})
 	}
@@ -550,5 +578,87 @@ func ruleH6(c *Ctx) {
 	}
 	if n < 5 {
 		c.anchorFail("only %d lookups examined", n)
+	}
+}
+
+// ---------- W8 ----------
+
+func init() {
+	register("W8", "no write is lost in a receiver copy: a method with a value receiver never assigns to a field of that receiver (the caller's object is unchanged, so state that sibling pointer-receiver methods rely on - e.g. the argument-binding bit set's large mode - silently stays unset)", 1, ruleW8)
+	claim("C08", "W8")
+	claim("C05", "W8")
+}
+
+func ruleW8(c *Ctx) {
+	n := 0
+	bad := 0
+	for _, fn := range c.P.Funcs {
+		if !isProdPkg(fnPkgPath(fn)) || fn.Signature.Recv() == nil || fn.Blocks == nil || len(fn.Params) == 0 {
+			continue
+		}
+		rt := fn.Signature.Recv().Type()
+		if _, isPtr := rt.(*types.Pointer); isPtr {
+			continue
+		}
+		if _, isStruct := rt.Underlying().(*types.Struct); !isStruct {
+			continue
+		}
+		n++
+		recv := fn.Params[0]
+		fn := fn
+		// a value receiver that is assigned to is spilled: stores go to FieldAddr(alloc holding the receiver)
+		eachInstr(fn, func(in ssa.Instruction) {
+			st, ok := in.(*ssa.Store)
+			if !ok {
+				return
+			}
+			fa, ok := st.Addr.(*ssa.FieldAddr)
+			if !ok {
+				return
+			}
+			al, ok := fa.X.(*ssa.Alloc)
+			if !ok || al.Referrers() == nil {
+				return
+			}
+			holdsRecv := false
+			for _, r := range *al.Referrers() {
+				if s2, ok := r.(*ssa.Store); ok && s2.Addr == al && s2.Val == ssa.Value(recv) {
+					holdsRecv = true
+				}
+			}
+			if !holdsRecv {
+				return
+			}
+			// the copy is returned or passed on: then the write is not lost (builder style)
+			escapes := false
+			for _, r := range *al.Referrers() {
+				switch x := r.(type) {
+				case *ssa.UnOp:
+					if x.Referrers() != nil {
+						for _, r2 := range *x.Referrers() {
+							switch r2.(type) {
+							case *ssa.Return, *ssa.MakeInterface, ssa.CallInstruction, *ssa.Store:
+								escapes = true
+							}
+						}
+					}
+				case ssa.CallInstruction, *ssa.MakeClosure:
+					escapes = true
+				}
+			}
+			if escapes {
+				return
+			}
+			bad++
+			_, f := ownerField(fa)
+			c.viol(fmt.Sprintf("%s: assigns receiver field %s", fnName(fn), f), c.P.Pos(st.Pos()), "the method has a value receiver, so this assignment changes a copy that is discarded when the method returns; callers that rely on the update (sibling methods with pointer receivers do) see the old state")
+		})
+	}
+	if n == 0 {
+		c.anchorFail("no value-receiver methods on struct types found")
+		return
+	}
+	if bad == 0 {
+		c.ok("value-receiver methods: receiver field stores", "-", fmt.Sprintf("%d value-receiver methods on struct types examined, none assigns to a field of its own copy without returning it", n))
 	}
 }
